@@ -161,6 +161,47 @@ def record_flatten(dfs, labels, two_d):
     return rec
 
 
+# ------------------------------------------------------------------------------------------------ C04 / C09: rename_extrema_df called directly
+def record_rename(df_peak_of_negated, centre, rs, with_samples, lab=0):
+    """rename_extrema_df(centre, table, return_samples) on the peak-centred shape table of the (negated) signal, with or without its sample columns."""
+    from bycycle.utils.dataframes import rename_extrema_df
+    df = df_peak_of_negated.copy() if with_samples else df_peak_of_negated[[c for c in df_peak_of_negated.columns if not c.startswith('sample_')]].copy()
+    df = pj.relabel(df, lab)
+
+    def fps(d):
+        return [{'name': c, 'fp': col_fp(d[c].values.astype(float)), 'fpneg': col_fp(-d[c].values.astype(float)), 'fpone': col_fp(1 - d[c].values.astype(float))} for c in d.columns]
+    rec = {'op': 'rename', 'centre': centre, 'rs': bool(rs), 'cols_in': fps(df), 'cols_out': [], 'raised': ''}
+    try:
+        out = rename_extrema_df(centre, df, rs) if lab % 2 else rename_extrema_df(centre, df, return_samples=rs)
+        rec['cols_out'] = [[c, col_fp(out[c].values.astype(float))] for c in out.columns]
+    except Exception as ex:
+        rec['raised'] = type(ex).__name__ + ':' + str(ex)[:60]
+    return rec
+
+
+def run_rename(ctx, prefixes, n_cases, seed_off):
+    """Direct calls of the secondary public function rename_extrema_df on shape tables of generated signals: both centrings x return_samples x
+    tables with / without sample columns x row labellings."""
+    from bycycle.features import compute_shape_features
+    recs, metas = [], []
+    for i, c in enumerate(gen.corpus(ctx.seed * 1000 + seed_off, n_cases, max_len=500)):
+        try:
+            with warnings.catch_warnings():
+                warnings.simplefilter('ignore')
+                shp = compute_shape_features(-c['sig'], c['fs'], c['f_range'])
+        except Exception:
+            continue
+        for centre in ('peak', 'trough'):
+            for rs in (True, False):
+                ws = (i + (centre == 'peak') + rs) % 3 != 0
+                recs.append(record_rename(shp, centre, rs, ws, lab=i + rs))
+                metas.append({'kind': c['kind'], 'centre': centre, 'return_samples': rs, 'table_has_sample_columns': ws, 'labels': pj.LABELLINGS[(i + rs) % 4], 'cycles': len(shp)})
+    judge(ctx, recs, metas, prefixes, 'rename')
+    ctx.nontrivial += sum(1 for m in metas if m['centre'] == 'trough')
+    ctx.parts.append({'part': 'direct.rename_extrema_df', 'calls': len(recs), 'trough': sum(1 for m in metas if m['centre'] == 'trough'),
+                      'without_sample_columns': sum(1 for m in metas if not m['table_has_sample_columns'])})
+
+
 # ------------------------------------------------------------------------------------------------ C13
 def record_epoch_df(df, sig_len, L, lab=0):
     from bycycle.utils import epoch_df
